@@ -58,6 +58,17 @@ type FuncFacts struct {
 	// Extra[i]: facts lifted from a new helper whose result edge i tests (inter.go)
 	Extra [][]Fact
 	conv  bool
+	// chainSel: when set, values and blocks of a new helper are read in the context of this
+	// one call chain only (context-sensitive queries, see withChain)
+	chainSel []*ssa.Call
+}
+
+// withChain: a view of the same facts that reads a new helper reached through ch in the
+// context of exactly that chain of calls.
+func (ff *FuncFacts) withChain(ch []*ssa.Call) *FuncFacts {
+	c := *ff
+	c.chainSel = ch
+	return &c
 }
 
 var factsMemo = map[*ssa.Function]*FuncFacts{}
@@ -111,6 +122,9 @@ func newTBMode(conv bool) *termBuilder {
 // helper called from here is expressed through the call's arguments.
 func (ff *FuncFacts) Term(v ssa.Value) *Term {
 	if vf := valueFunc(v); vf != nil && vf != ff.Fn && isNewHelper(vf) {
+		if ff.chainSel != nil && chainTarget(ff.chainSel) == vf {
+			return substAlong(ff.chainSel, vf, factsOfMode(vf, ff.conv).tb.of(v, 0), ff.conv)
+		}
 		return liftTerm(ff.Fn, vf, factsOfMode(vf, ff.conv).tb.of(v, 0), ff.conv)
 	}
 	return ff.tb.of(v, 0)
@@ -173,6 +187,9 @@ func (f Fact) Mirror() (Fact, bool) {
 func (ff *FuncFacts) factsAtForeign(blk *ssa.BasicBlock) []Fact {
 	target := blk.Parent()
 	chains := helperChains(ff.Fn, target)
+	if ff.chainSel != nil && chainTarget(ff.chainSel) == target {
+		chains = [][]*ssa.Call{ff.chainSel}
+	}
 	if len(chains) == 0 {
 		return nil
 	}
@@ -1016,4 +1033,16 @@ func isTailCall(c *ssa.Call) bool {
 		}
 	}
 	return false
+}
+
+// chainTarget: the function a call chain ends in.
+func chainTarget(ch []*ssa.Call) *ssa.Function {
+	if len(ch) == 0 {
+		return nil
+	}
+	last := ch[len(ch)-1]
+	if g := calleeOf(last); g != nil && len(closuresRunAt(last)) == 0 {
+		return g
+	}
+	return calleeOf(last)
 }
